@@ -5,9 +5,10 @@ From Spox Require Import Base IR Show Build Sem.
 Import ListNotations.
 
 Section Inst.
-Variable p : prog.     (* graph 0 = the main graph: requested arguments and results *)
+Variable p : prog.
+Variable main : nat.   (* the graph whose build is considered: 0 = the public request; a function's body graph otherwise *)
 
-Definition topoP : list nref := postorder (2 * fuel_of p) (full_adj p) (NIntro 0).
+Definition topoP : list nref := postorder (2 * fuel_of p) (full_adj p) (NIntro main).
 Definition inR (u : nref) : bool := mem nref_eqb u topoP.
 (* accessors, restricted to the part of the program reachable from the requested results *)
 Definition insP (u : nref) : list (option var) :=
@@ -54,7 +55,7 @@ with plan_of_graph (gid : nat) (g : mgraph) : plan :=
                    match l with [] => [] | n :: t => plan_of_node n :: go t end) b) end.
 
 Definition check_plan (g : mgraph) : bool :=
-  acyclic_b && wf_b is_argP insP subsP gargsP gresP noutsP (plan_of_graph 0 g) [] [].
+  acyclic_b && wf_b is_argP insP subsP gargsP gresP noutsP (plan_of_graph main g) [] [].
 
 (* operator semantics: arbitrary for user nodes (by node index), identity for the per-graph result identities *)
 Section OpSem.
